@@ -77,12 +77,31 @@ def install(seed):
         supp.util.Location.__hash__ = _loc_hash
         supp.name.MultiName.__hash__ = _multi_hash
         supp.name.Object.__hash__ = _obj_hash
+        # id() of analysis objects is an address too: code that orders or keys by id() gets the keyed value
+        # (module global `id` of every supp module; the builtin is untouched)
+        for mod in _supp_modules():
+            mod.id = _keyed_id
         _state['installed'] = True
     _state['seed'] = seed
 
 
+def _supp_modules():
+    import sys
+    return [m for n, m in sorted(sys.modules.items())
+            if (n == 'supp' or n.startswith('supp.')) and m is not None and n != 'supp.umsgpack']
+
+
+def _keyed_id(obj):
+    if isinstance(obj, (supp.util.Location, supp.name.MultiName, supp.name.Object)):
+        return hash(obj)
+    return id(obj)
+
+
 def uninstall():
     if _state['installed']:
+        for mod in _supp_modules():
+            if mod.__dict__.get('id') is _keyed_id:
+                del mod.id
         for cls, key in ((supp.util.Location, 'loc'), (supp.name.MultiName, 'multi'), (supp.name.Object, 'obj')):
             if _orig[key] is None:
                 try:
